@@ -273,6 +273,12 @@ type Flight struct {
 	dupOf  bool
 }
 
+// advWait: adversary moves that start once the correct nodes have reached view v of height h.
+type advWait struct {
+	h, v uint64
+	then []string
+}
+
 type World struct {
 	t        *testing.T
 	ch       *Chooser
@@ -317,6 +323,9 @@ type World struct {
 	liveAbstain bool
 	stableBudget, stableStart, byzSteps int
 	advPlan  []string
+	advWait  *advWait
+	commitFailedN *Node // a correct node whose commit callback just failed (the adversary may try a second proposal)
+	decoyFor hv // the (height, view) for which a Byzantine leader sent a proposal ahead of time
 	planned  map[hv]*Block // blocks a Byzantine leader announced for views it will lead (byz.self-prepare)
 	yieldAll bool
 	yieldN   int
@@ -326,6 +335,7 @@ type World struct {
 	evBuf    []string
 	synN     int // synthetic committees made so far (block-proof scenario)
 	kmHold   *kmHold
+	callCancel *callCancel
 	avoidHash []byte // adversary: prefer certificates for another block than this one (the honest lock)
 	stimAny  bool  // a clock advance is in progress (real timers of any node may fire)
 	stimNode *Node // the node whose main loop is being handed an election trigger / a sync right now
